@@ -121,7 +121,9 @@ struct Checker
     {
         const std::string got = mc::hex( v, n ), want = mc::hex( a.value, a.vlen );
         const std::string d = mc::fmt( "Read of handle 0x%04x (%s) returns %s, the declaration implies %s", a.handle, kind_name( a.kind ), got.c_str(), want.c_str() );
-        if ( n == a.vlen && memcmp( v, a.value, n ) == 0 ) return Fail{};
+        // a value longer than MTU - 1 is cut by a Read Request
+        const std::size_t want_n = std::min< std::size_t >( a.vlen, cl.mtu - 1 );
+        if ( n == want_n && memcmp( v, a.value, n ) == 0 ) return Fail{};
         if ( a.kind == k_chardecl && n == a.vlen )
         {
             if ( v[ 0 ] != a.value[ 0 ] ) return Fail{ "char-decl:wrong-properties", d };
